@@ -410,6 +410,10 @@ func mustSame[T comparable](a, b T, panicStr string) {
 // ChannelLength calculates a channel length for provided Buffer length and
 // number of channels.
 func ChannelLength(sliceLen, channels int) int {
+	// a buffer without channels holds no frames.
+	if channels == 0 {
+		return 0
+	}
 	return int(math.Ceil(float64(sliceLen) / float64(channels)))
 }
 
@@ -489,5 +493,9 @@ func WriteStriped[S, D SignalTypes](src [][]S, dst *Buffer[D]) (written int) {
 // alignCapacity ensures that Buffer capacity is aligned with number of
 // channels.
 func alignCapacity(s interface{}, channels, c int) {
+	// nothing to align for a buffer without channels.
+	if channels == 0 {
+		return
+	}
 	reflect.ValueOf(s).Elem().SetCap(c - c%channels)
 }
